@@ -342,7 +342,7 @@ class Func:
         self._bl = cand - bad
         return self._bl
 
-    def forward_paths_hit(self, starts, targets, blockers=(), stop_at_targets=True, track_bools=True):
+    def forward_paths_hit(self, starts, targets, blockers=(), stop_at_targets=True, track_bools=True, arm_at=None):
         """Location-level forward search over normal edges.
         Returns the first target location reachable from any start without
         crossing a blocker location (a blocker stops the path *at* it), plus the
@@ -361,6 +361,10 @@ class Func:
         tracked = self._bool_locals() if track_bools else set()
         seen = set()
         dq = deque()
+        if arm_at is not None:
+            # search from the function entry (so that drop flags have known values); targets and
+            # blockers only count after the path has passed `arm_at`
+            return self._armed_search(arm_at, targets, blockers, tracked)
         for s in starts:
             dq.append((s[0], s[1], (s[0],), frozenset()))
         while dq:
@@ -404,6 +408,52 @@ class Func:
             for s in succs:
                 if (s, 0, env2) not in seen:
                     dq.append((s, 0, path + (s,), env2))
+        return None
+
+    def _armed_search(self, arm_at, targets, blockers, tracked):
+        targets, blockers = set(targets), set(blockers)
+        seen = set()
+        dq = deque([(0, frozenset(), False, (0,))])
+        while dq:
+            bb, env, armed, path = dq.popleft()
+            if (bb, env, armed) in seen:
+                continue
+            seen.add((bb, env, armed))
+            stmts = self.blocks[bb]['stmts']
+            envd = dict(env)
+            stop = False
+            for k in range(len(stmts) + 1):
+                loc = Loc(bb, k)
+                if armed and loc in blockers:
+                    stop = True
+                    break
+                if armed and loc in targets:
+                    return loc, list(path)
+                if loc == arm_at:
+                    armed = True
+                    continue
+                if k < len(stmts):
+                    s = stmts[k]
+                    if s['k'] == 'assign' and not s['lhs']['p'] and s['lhs']['l'] in tracked:
+                        rv = s['rv']
+                        if rv['k'] == 'use' and rv['op'].get('k') == 'const':
+                            envd[s['lhs']['l']] = const_val(rv['op'])
+                        elif rv['k'] == 'use' and 'l' in rv['op'] and rv['op']['l'] in envd:
+                            envd[s['lhs']['l']] = envd[rv['op']['l']]
+                        else:
+                            envd.pop(s['lhs']['l'], None)
+            if stop:
+                continue
+            env2 = frozenset(envd.items())
+            succs = self.succ[bb]
+            t = self.blocks[bb]['term']
+            if t['k'] == 'switch' and 'l' in t['discr'] and not t['discr']['p'] and t['discr']['l'] in envd:
+                v = envd[t['discr']['l']]
+                vals = {int(x): tgt for x, tgt in t['targets']}
+                only = vals.get(v, t['otherwise'])
+                succs = [x for x in succs if x == only]
+            for s2 in succs:
+                dq.append((s2, env2, armed, path + (s2,)))
         return None
 
     def reachable_locs(self, starts, blockers=()):
